@@ -336,9 +336,13 @@ def compare_cases(c2m, cases, d, tag):
 def shrink_pp_case(c2m, text, d):
     lines = text.split('\n')
 
+    strict = D.well_formed(text, True)
+
     def fails(sub):
-        if sub and sub[-1].endswith('\\'):
-            return False        # a file ending in backslash-new-line is not a C source file (5.1.1.2p2), c2m crashes on it
+        if not D.well_formed('\n'.join(sub) + '\n', strict):
+            # e.g. a file ending in backslash-new-line (5.1.1.2p2, c2m crashes on it), a quote left over from a comment
+            # whose opener was cut away (6.4p3): undefined, gcc/clang are lenient, c2m reports an error
+            return False
         r = compare_cases(c2m, [(0, '\n'.join(sub) + '\n')], d, 'shr')
         return r[0][0] == 'diff'
     if not fails(lines):
@@ -346,7 +350,7 @@ def shrink_pp_case(c2m, text, d):
     lines = vlib.shrink_list(lines, fails, max_steps=200)
     # then token-wise inside the non-directive lines (unbalanced results are rejected by gcc -> not failing)
     for li in range(len(lines)):
-        if lines[li].lstrip().startswith('#') or len(lines[li]) < 12:
+        if lines[li].lstrip().startswith('#') or len(lines[li]) < 12 or '/*' in lines[li] or '//' in lines[li] or '*/' in lines[li]:
             continue
         words = lines[li].split(' ')
 
@@ -360,7 +364,7 @@ def strip_marker(toks):
     return toks[1:] if toks[:1] == [';'] else toks      # the `;` of the case marker line
 
 
-def run_expand(chk, c2m, model_fn, d, quick):
+def run_expand(chk, c2m, model_fn, d, quick, model=None):
     cases = []
     feats = {}
     queries = {}       # case index -> (query line, kind, aux)
@@ -395,7 +399,13 @@ def run_expand(chk, c2m, model_fn, d, quick):
     # #include, the corpus -- with comments (one line, several lines, //), other white space and backslash-new-line
     # splices put in at token boundaries / any character position (translation phases 2-3 make them invisible)
     ndeco = 520 if quick else 8000
-    corpus_texts = [t for _, t in cases[:len([f for f in feats.values() if f[0].startswith('corpus:')])]]
+    with open(os.path.join(d, D.INC_NAME), 'w') as f:
+        f.write(D.INC_TEXT)
+    rc, out, err = run_pp([c2m, '-E'], '#define C09_H(x) x\n#include C09_H("%s" )\n' % D.INC_NAME, d, 'incprobe.c')
+    D.INCLUDE_TRAILING_WS_OK = rc == 0
+    chk.dist('pp_forms_accepted_by_this_tree', 'macro-expanded #include operand ending in white space', 1 if rc == 0 else 0)
+    # (corpus files with a `\` pp-token outside literals are not decorated: a comment next to it changes what # makes of it)
+    corpus_texts = [t for _, t in cases[:len([f for f in feats.values() if f[0].startswith('corpus:')])] if D.well_formed(t, True)]
     for k in range(ndeco):
         rng = chk.rng('deco%d' % k)
         w = rng.random()
@@ -408,7 +418,10 @@ def run_expand(chk, c2m, model_fn, d, quick):
             tree, nm, px, fs = M.gen_cond_tree(rng, idx)
             base, names, src = M.cond_text(tree, nm, px), nm, 'cond'
         elif w < 0.85:
-            e = G.render(G.gen_expr(rng, rng.choice([1, 2, 2, 3])))
+            et = G.gen_expr(rng, rng.choice([1, 2, 2, 3]))
+            if model is not None and model_if(model, [G.prefix(et)])[0]['c11'] is None:
+                continue            # C11 gives the expression no value (overflow, bad shift, division by zero)
+            e = G.render(et)
             base = '#if %s\nd%d_T ;\n#else\nd%d_F ;\n#endif\n' % (e, idx, idx)
             fs, src = [], 'if-expression'
         elif w < 0.95 or not corpus_texts:
@@ -417,6 +430,8 @@ def run_expand(chk, c2m, model_fn, d, quick):
         else:
             base, fs, src = rng.choice(corpus_texts), [], 'corpus'
         text, dfs = D.decorate(rng, base, names)
+        if not D.well_formed(text):
+            raise vlib.BuildError('gen_c09_deco produced an ill-formed text: %r' % text[:300])
         cases.append((idx, text))
         if src == 'macro':
             q = M.model_query(base)
@@ -585,7 +600,7 @@ def run(chk):
         shutil.copy(c2m, mine)
         c2m = mine
         n_if, if_findings, if_model_breaks = run_if(chk, c2m, model, d, quick)
-        n_pp, pp_bad, fn_breaks = run_expand(chk, c2m, model_fn, d, quick)
+        n_pp, pp_bad, fn_breaks = run_expand(chk, c2m, model_fn, d, quick, model)
         n_obj, obj_breaks = run_objlike(chk, c2m, model, d, quick)
     chk.cov['rule'] = ('#if: each generated controlling expression to which the C11 model gives a value is run as three '
                        'directives (group selection; (e)==predicted value; 0*(e)-1<0 for the type) under c2m -E and gcc -E '
